@@ -19,10 +19,9 @@ static std::string show(const std::function<std::string()>& f)
     }
 }
 
-int main()
+static std::string handle(const std::string& line)
 {
-    std::string line;
-    while (std::getline(std::cin, line))
+    std::ostringstream std_cout;
     {
         auto t = pv::split(line);
         if (t.size() == 2 && t[0] == "E")
@@ -33,7 +32,7 @@ int main()
                 bin[i] = std::byte(static_cast<unsigned char>(in[i]));
             Base64Encoder enc(bin);
             std::string e = enc.Encode();
-            std::cout << "E " << pv::hex(e) << " rfc=same\n";
+            std_cout << "E " << pv::hex(e) << " rfc=same\n";
         }
         else if (t.size() == 2 && t[0] == "D")
         {
@@ -47,15 +46,15 @@ int main()
                 std::string s;
                 for (auto b : o)
                     s.push_back(static_cast<char>(b));
-                std::cout << "D ok " << pv::hex(s) << "\n";
+                std_cout << "D ok " << pv::hex(s) << "\n";
             }
             catch (const std::out_of_range&)
             {
-                std::cout << "D err range\n";
+                std_cout << "D err range\n";
             }
             catch (const std::runtime_error&)
             {
-                std::cout << "D err runtime\n";
+                std_cout << "D err runtime\n";
             }
         }
         else if (t.size() == 3 && t[0] == "B")
@@ -67,15 +66,14 @@ int main()
             }
             catch (const std::exception&)
             {
-                std::cout << "B seterr\n";
-                continue;
+                return "B seterr";
             }
             std::ostringstream os;
             a.write(os);
             // parse the written text back, as the receiving side does
             Http::Header::Authorization b;
             b.parse(os.str());
-            std::cout << "B " << pv::hex(os.str()) << " "
+            std_cout << "B " << pv::hex(os.str()) << " "
                       << show([&] { return b.getBasicUser(); }) << " "
                       << show([&] { return b.getBasicPassword(); }) << "\n";
         }
@@ -83,11 +81,19 @@ int main()
         {
             Http::Header::Authorization b;
             b.parse(pv::unhex(t[1]));
-            std::cout << "G " << show([&] { return b.getBasicUser(); }) << " "
+            std_cout << "G " << show([&] { return b.getBasicUser(); }) << " "
                       << show([&] { return b.getBasicPassword(); }) << "\n";
         }
         else
-            std::cout << "BADCASE\n";
+            std_cout << "BADCASE\n";
     }
-    return 0;
+    std::string r = std_cout.str();
+    if (!r.empty() && r.back() == '\n')
+        r.pop_back();
+    return r;
+}
+
+int main()
+{
+    return pv::run_cases(handle);
 }
